@@ -15,7 +15,8 @@ RULE = (
     "buffers) decompilation must succeed and exec of the source under real builtins must give a "
     "type-exact, float-sign-aware, deep-equal value. (b) typed opcode programs (bounded-exhaustive "
     "focus alphabet + Hypothesis full alphabet) and natural pickles of instances (dict/slot/"
-    "reduce/newargs/setstate state): the value bound to `result` when the source runs over inert "
+    "reduce/newargs/setstate state; a second exhaustive alphabet of all container-building and "
+    "-mutating opcodes with duplicate/distinct keys, memo aliasing and DUP): the value bound to `result` when the source runs over inert "
     "stubs must canonicalise (identity-aware for call results) equal to the reference VM's return "
     "value, and the multisets of call events must be equal. Non-trivial = nested container, "
     "shared reference, instance with state, memo GET of a mutable, or BUILD; distinct = distinct "
@@ -168,7 +169,7 @@ def nt_bytes(data):
 
 
 def shards(tier):
-    out = _progdiff.shards(tier, quick_len=4, thorough_len=5)
+    out = _progdiff.shards(tier, quick_len=4, thorough_len=5, container_len=(5, 6), alias_len=(6, 8))
     n = 400 if tier == "quick" else 6000
     out += [{"kind": "plain", "n": n, "idx": i} for i in range(16)]
     return out
